@@ -155,7 +155,7 @@ func drawArg(t *rapid.T) argSpec {
 	}
 }
 
-const ruleHijack = "hijacked routes (pin/add, pin/rm, pin/ls, pin/update, repo/stat, repo/gc, add) with methods POST/GET/PUT, both argument styles (?arg= and /path/{arg}), valid and invalid CIDs and paths, options (type, unpin, stream-errors, pin, only-hash, trickle, layout, chunker, raw-leaves, cid-version, hash, wrap-with-directory, stream-channels, invalid values), cluster answering success or error; oracle: the expected cluster call(s) with the requested path and options, nothing written when the proxy answers with an error, never relayed to the daemon; non-trivial = at least one option or an error; distinct by request line"
+const ruleHijack = "hijacked routes (pin/add, pin/rm, pin/ls, pin/update, repo/stat, repo/gc, add) with methods POST/GET/PUT, both argument styles (?arg= and /path/{arg}), the endpoint path spelled plainly or with a percent-encoded slash or letter, valid and invalid CIDs and paths, options (type, unpin, stream-errors, pin, only-hash, trickle, layout, chunker, raw-leaves, cid-version, hash, wrap-with-directory, stream-channels, invalid values), cluster answering success or error; oracle: the expected cluster call(s) with the requested path and options, nothing written when the proxy answers with an error, never relayed to the daemon; non-trivial = at least one option or an error; distinct by request line"
 
 func TestHijacked(t *testing.T) {
 	leg := ev.L("hijacked", ruleHijack)
@@ -166,7 +166,17 @@ func TestHijacked(t *testing.T) {
 		route := rapid.SampledFrom([]string{"pin/add", "pin/rm", "pin/ls", "pin/update", "repo/stat", "repo/gc", "add", "add"}).Draw(t, "route")
 		clusterFails := rapid.IntRange(0, 5).Draw(t, "clusterFails") == 0
 		q := url.Values{}
-		u := proxyURL + "/api/v0/" + route
+		// the endpoint may be spelled with percent-encoded characters: the
+		// daemon dispatches on the decoded path, so it is the same endpoint
+		spelled := route
+		switch rapid.SampledFrom([]string{"plain", "plain", "plain", "encoded-slash", "encoded-letter"}).Draw(t, "spelling") {
+		case "encoded-slash":
+			spelled = strings.Replace(route, "/", "%2F", 1)
+		case "encoded-letter":
+			i := strings.LastIndex(route, "/") + 1
+			spelled = route[:i] + fmt.Sprintf("%%%02X", route[i]) + route[i+1:]
+		}
+		u := proxyURL + "/api/v0/" + spelled
 		var body []byte
 		ctype := ""
 		nontrivial := false
